@@ -6,6 +6,7 @@ from .. import poly
 from ..interp import Interp, Tup, Const, COND_TYPES, fold_cond, State
 from ..order import weak_orderings, OrderCase, WitnessCase, ranks_of, describe
 from ..model import AnalysisError
+from .. import purity
 
 
 class Undecided(Exception):
@@ -167,6 +168,7 @@ def run(ck, prog, tier):
         'exhibit a realisable counterexample (violation), else the check cannot conclude (exit 2).')
     ck.assumptions += ['inputs are totally ordered numbers (no NaN) with lower<=upper, tolerance>=0']
     ck.trusted += ['python ast module', 'vf.interp / vf.order', 'min/max semantics']
+    purity.check(ck, prog, ['plot_utils.checkLimits', 'plot_utils.checkLimitsTol', 'plot_utils.constrainLimits', 'plot_utils.point_in_bounds'], 'C18-R-pure')
     f_chk = prog.func('plot_utils.checkLimits')
     f_tol = prog.func('plot_utils.checkLimitsTol')
     f_con = prog.func('plot_utils.constrainLimits')
